@@ -125,6 +125,10 @@ def main():
     for o in refuted:
         f = match_finding(findings['findings'], a.prop, o)
         (known if f else new).append((o, f))
+    # an undecided instance (solver budget cut on one path) of an obligation that is refuted on another path of the same
+    # function and listed as a known finding adds nothing: it is counted under that finding
+    known_keys = {(o['function'], o.get('variant'), o['name']) for o, _ in known}
+    undecided = [o for o in undecided if (o['function'], o.get('variant'), o['name']) not in known_keys]
     os.makedirs(os.path.join(VERIF, 'replays', a.prop), exist_ok=True)
     lines = []
     seen_kf = set()
